@@ -5,6 +5,7 @@ import itertools
 import os
 import random
 import shutil
+import stat
 
 from vf.core import pz
 from vf.mon import jail
@@ -106,6 +107,10 @@ def cases(rng, tier):
     longs += [_long_lookup(last, ups) for last in (("F", None), ("D", None)) for ups in (1, 2)]
     for i, m in enumerate(modes):
         out.append({"archives": longs, "dest": m, "prepop": False, "open": "path" if i == 1 else "stream", "perfile": False, "label": "beyond-PATH_MAX", "sig": "long-chain"})
+    # the destination's own entry (fifth hunt): an empty file named like the destination puts its mode and time onto it
+    own = [[[n, "E", None]] for n in (".", "./", "a/..", "../{DN}", "{D}", "a/../.")] + [[["a", "D", None], [n, "E", None]] for n in (".", "a/..")]
+    for m in modes:
+        out.append({"archives": own, "dest": m, "prepop": False, "open": "stream", "perfile": False, "label": "destination-entry", "watch_dest": True})
     nrand = 2000 if tier == "quick" else 100000
     rnd = []
     for _ in range(nrand):
@@ -174,6 +179,9 @@ def _members(arc, D, OUT):
         m = {"name": name, "mtime": 132000000000000000 + i}
         if kind == "F":
             m.update(kind="file", data=b"payload-%d" % i, attributes=0x20 | 0x8000 | (0o100644 << 16))
+        elif kind == "E":
+            # an empty file carrying a mode and a time of its own
+            m.update(kind="emptyfile", attributes=0x20 | 0x8000 | (0o100700 << 16), mtime=125000000000000000)
         elif kind == "D":
             m.update(kind="dir", attributes=0x10 | 0x8000 | (0o040755 << 16))
         else:
@@ -252,8 +260,8 @@ def run_case(case):
             if before is None:
                 before = jail.snapshot(root, D)
             mem = _members(arc, D, OUT)
-            lay = {"header": "raw", "folders": ([{"n": 1, "chain": [{"m": "COPY"}], "crc": "sub"} for m in mem if m["kind"] != "dir"] if case["perfile"]
-                                               else [{"n": sum(1 for m in mem if m["kind"] != "dir"), "chain": [{"m": "COPY"}], "crc": "sub"}])}
+            lay = {"header": "raw", "folders": ([{"n": 1, "chain": [{"m": "COPY"}], "crc": "sub"} for m in mem if m["kind"] not in ("dir", "emptyfile")] if case["perfile"]
+                                               else [{"n": sum(1 for m in mem if m["kind"] not in ("dir", "emptyfile")), "chain": [{"m": "COPY"}], "crc": "sub"}])}
             if not lay["folders"] or lay["folders"][0]["n"] == 0:
                 lay["folders"] = []
             data = W.build(mem, lay)
@@ -280,6 +288,7 @@ def run_case(case):
                     os.makedirs(D, exist_ok=True)
                     os.chdir(D)
                     dest = None
+                d_before = (stat.S_IMODE(os.stat(D).st_mode), os.stat(D).st_mtime_ns) if (case.get("watch_dest") and os.path.isdir(D)) else None
                 jail.start(D)
                 status = "completed"
                 sch = None
@@ -327,6 +336,12 @@ def run_case(case):
             if rep["outside"] and not df:
                 obs["attempts_outside_without_effect"] = obs.get("attempts_outside_without_effect", 0) + 1
                 rep["outside"] = jail.corroborated(rep["outside"])
+            if d_before is not None and os.path.isdir(D):
+                obs["destination_entries_watched"] = obs.get("destination_entries_watched", 0) + 1
+                d_after = (stat.S_IMODE(os.stat(D).st_mode), os.stat(D).st_mtime_ns)
+                if d_after[0] != d_before[0] or d_after[1] == 855526400000000000:
+                    viol.append({"key": "escape/destination-entry-remoded", "what": "archive %r into %s destination (%s): the destination directory itself went from mode %o to %o, mtime %d -> %d" % (
+                        arc, case["dest"], status, d_before[0], d_after[0], d_before[1], d_after[1]), "archive": arc})
             sig = case.get("sig") or _sig(arc)
             cells.add("%s|%s|%s|%s" % (case["label"], sig if len(arc) <= 2 else sig[:60], case["dest"], status))
             if df or rep["outside"]:
